@@ -465,3 +465,77 @@ func H_C04_casekeys() {
 	verif.Assert(sameMultiset(prs, want), "multiset")
 	verif.Reach("end")
 }
+
+// H_C04_conjuncts: ON conditions with three conjuncts over three column
+// pairs: every combination of =, < and != in every position (so a
+// non-equality between two equalities too), nested to the left (a AND b AND
+// c) or to the right (a AND (b AND c)), for every join type and strategy.
+func H_C04_conjuncts() {
+	jt := verif.Choose("type", 3)
+	strat := verif.Choose("strategy", 3)
+	ops := [3]int{verif.Choose("op1", 3), verif.Choose("op2", 3), verif.Choose("op3", 3)}
+	nest := verif.Choose("nesting", 2)
+	shape := verif.Choose("shape", 1+verif.Tier()) // one row on each side (2 x 1 too in the thorough tier)
+	if strat == 2 && jt != 0 {
+		verif.Assume(false) // STRAIGHT_JOIN is inner only
+	}
+	if shape == 1 && (jt != 0 || nest != 0 || strat == 2) {
+		verif.Assume(false) // two left rows: inner joins, left nesting, automatic and HASH_JOIN strategies
+	}
+	nl, nr := 1, 1
+	switch shape {
+	case 1:
+		nl = 2
+	case 2:
+		nr = 2
+	}
+	verif.Opt("maporder", 1)
+	lrows, larr := joinSide(nl, []string{"a", "c", "e"}, false)
+	rrows, rarr := joinSide(nr, []string{"b", "d", "f"}, false)
+	sym := []string{"=", "<", "!="}
+	cj := [3]string{"x.a " + sym[ops[0]] + " y.b", "x.c " + sym[ops[1]] + " y.d", "x.e " + sym[ops[2]] + " y.f"}
+	on := cj[0] + " AND " + cj[1] + " AND " + cj[2]
+	if nest == 1 {
+		on = cj[0] + " AND (" + cj[1] + " AND " + cj[2] + ")"
+	}
+	got, ok := runQuery(Map{"l": larr, "r": rarr}, "SELECT * FROM l x "+joinKeyword(jt, strat, false)+" r y ON "+on)
+	if !ok {
+		return
+	}
+	pairs, shaped := joinPairs(got, lrows, rrows)
+	verif.Assert(shaped, "row-shape")
+	if !shaped {
+		return
+	}
+	holds := func(op int, u, v any) bool {
+		switch op {
+		case 0:
+			return f64of(u) == f64of(v)
+		case 1:
+			return f64of(u) < f64of(v)
+		}
+		return f64of(u) != f64of(v)
+	}
+	var want [][2]int
+	lm, rm := make([]bool, nl), make([]bool, nr)
+	for i, l := range lrows {
+		for j, r := range rrows {
+			if holds(ops[0], l["a"], r["b"]) && holds(ops[1], l["c"], r["d"]) && holds(ops[2], l["e"], r["f"]) {
+				want = append(want, [2]int{i, j})
+				lm[i], rm[j] = true, true
+			}
+		}
+	}
+	for i := range lrows {
+		if jt == 1 && !lm[i] {
+			want = append(want, [2]int{i, -1})
+		}
+	}
+	for j := range rrows {
+		if jt == 2 && !rm[j] {
+			want = append(want, [2]int{-1, j})
+		}
+	}
+	verif.Assert(sameMultiset(pairs, want), "multiset")
+	verif.Reach("end")
+}
